@@ -75,7 +75,7 @@ async fn main() {
         } } }
         let (sa, mut ea) = pa.log_sync_protocol(&logs);
         let (sb, mut eb) = pb.log_sync_protocol(&logs);
-        let r = tokio::time::timeout(Duration::from_secs(20), run_protocol(sa, sb)).await;
+        let r = tokio::time::timeout(Duration::from_secs(180), run_protocol(sa, sb)).await;
         n += 1;
         if want[0].len() + want[1].len() > 0 { nontrivial += 1; }
         let inp = json!({"round": round, "shared_logs": shared, "stored(seq numbers per (author,log))": stored.iter().map(|m| m.iter().map(|((au, l), v)| json!({"author": if *au == ida { "A" } else { "B" }, "log": l, "seqs": v.iter().map(|o| o.header.seq_num).collect::<Vec<_>>()})).collect::<Vec<_>>()).collect::<Vec<_>>()});
